@@ -16,8 +16,8 @@ type pump struct {
 
 	deliveries int
 	bytes      int64
-	tiny       int // deliveries of < 8 bytes
-	capReads   bool // also draw a bound on what a single Read returns
+	tiny       int                     // deliveries of < 8 bytes
+	capReads   bool                    // also draw a bound on what a single Read returns
 	hook       func(l *SimLink, d int) // optional man-in-the-middle hook, called before a delivery of (l,d)
 	// gate, if set, bounds how many in-flight bytes of (l,d) may be delivered
 	// now (0 = hold everything back for the moment).
